@@ -749,6 +749,12 @@ fn main() {
         let line = line.trim();
         if line.is_empty() || line.starts_with('#') { continue; }
         if line == "reset" {
+            if nrec() + 4096 > MAXB {
+                // the allocation record table is nearly full: stop before mis-measuring; the runner restarts a fresh
+                // process at this history (exit status 5 = "not an observation")
+                out.flush().unwrap();
+                std::process::exit(5);
+            }
             // forget (not drop) everything of the previous history: its blocks stay quarantined
             let old = std::mem::replace(&mut w, World::new());
             std::mem::forget(old);
